@@ -1167,7 +1167,7 @@ func pkgOfFuncKey(k string) string {
 // ---- O19.8: postprocessors always get a reader over the body that was read
 
 func c19PostprocessorBody(c *Ctx) {
-	c.Rule("O19.8", "a step with postprocessors reads the body, whatever the target sent: the reader handed to Postprocessor.Process is a *bytes.Reader, which is nil unless bytes.NewReader ran - so with postprocessors configured (len > 0) and no I/O error, every path from the response to each Process call passes exactly one bytes.NewReader whose result is that argument (a typed nil reader is not a nil interface: Process would dereference it on an empty 204/304/HEAD response and the shot panics)")
+	c.Rule("O19.8", "a step with postprocessors reads the body, whatever the target sent: the reader handed to Postprocessor.Process is a *bytes.Reader, which is nil unless bytes.NewReader ran - so with postprocessors configured (len > 0) and no I/O error, every path from the response to each Process call (followed up through the helper that runs the postprocessors, if there is one) passes exactly one bytes.NewReader whose result is that argument (a typed nil reader is not a nil interface: Process would dereference it on an empty 204/304/HEAD response and the shot panics)")
 	P := c.P
 	n := 0
 	for _, fn := range P.ProdFuncs() {
@@ -1188,36 +1188,54 @@ func c19PostprocessorBody(c *Ctx) {
 				return
 			}
 			n++
-			var procs ssa.Value // the collection of processors the call ranges over
-			for _, r := range Roots(cc.Value, true) {
-				if _, isSl := r.Type().Underlying().(*types.Slice); isSl {
-					procs = r
+			procT := cc.Value.Type() // the postprocessor interface
+			// where the reader is made: here, or in the caller that hands it to this helper (up to three levels)
+			cur, stop, reader := fn, in, mi.X
+			for d := 0; d < 3; d++ {
+				par, isP := Strip(reader).(*ssa.Parameter)
+				if !isP || par.Parent() != cur {
+					break
 				}
-				// the element of a ranged slice: *(&s[i])
-				if u, isU := r.(*ssa.UnOp); isU && u.Op == token.MUL {
-					if ia, isIA := u.X.(*ssa.IndexAddr); isIA {
-						if _, isSl := ia.X.Type().Underlying().(*types.Slice); isSl {
-							procs = ia.X
-						}
+				site := SoleCallSite(cur)
+				if site == nil {
+					break
+				}
+				idx := -1
+				for i, q := range cur.Params {
+					if q == par {
+						idx = i
 					}
 				}
-			}
-			if os.Getenv("PV_DEBUG") != "" {
-				fmt.Fprintln(os.Stderr, "O19.8 procs", procs, "value", cc.Value, Roots(cc.Value, true))
+				a := ArgOfParam(site, cur, idx)
+				if a == nil {
+					break
+				}
+				cur, stop, reader = site.Parent(), site, a
 			}
 			sNewReader := Spec{"bytes", "", "NewReader"}
-			fromNew := DerivesAny(mi.X, false, func(v ssa.Value) bool {
+			fromNew := DerivesAny(reader, false, func(v ssa.Value) bool {
 				cl, _ := CallOfValue(v)
 				return cl != nil && MatchCC(&cl.Call, sNewReader)
 			})
 			lenPos := func(v ssa.Value) bool {
 				b, ok := v.(*ssa.BinOp)
-				if !ok || procs == nil {
+				if !ok {
 					return false
 				}
 				f := Fact{Op: b.Op, X: b.X, Y: b.Y}.Canon() // X < / <= Y
 				k, isK := ConstInt(f.X)
-				return isK && f.Op == token.LSS && k == 0 && isLenCallOf(f.Y, procs)
+				if !isK || f.Op != token.LSS || k != 0 {
+					return false
+				}
+				cl, isCall := f.Y.(*ssa.Call)
+				if !isCall {
+					return false
+				}
+				if bi, isB := cl.Call.Value.(*ssa.Builtin); !isB || bi.Name() != "len" {
+					return false
+				}
+				sl, isSl := cl.Call.Args[0].Type().Underlying().(*types.Slice)
+				return isSl && types.Identical(sl.Elem(), procT)
 			}
 			errIsNil := func(op token.Token) func(ssa.Value) bool {
 				return func(v ssa.Value) bool {
@@ -1225,8 +1243,8 @@ func c19PostprocessorBody(c *Ctx) {
 					return ok && b.Op == op && IsNilConst(b.Y) && types.Identical(b.X.Type(), errType)
 				}
 			}
-			iv := PathQuery{Fn: fn, Shallow: true,
-				Stop: func(i2 ssa.Instruction) bool { return i2 == in },
+			iv := PathQuery{Fn: cur, Shallow: true,
+				Stop: func(i2 ssa.Instruction) bool { return i2 == stop },
 				Exit: func(*ssa.BasicBlock) bool { return false },
 				Assume: []Assumption{{Pred: lenPos, Val: true}, {Pred: errIsNil(token.EQL), Val: true}, {Pred: errIsNil(token.NEQ), Val: false}},
 				Weight: func(i2 ssa.Instruction) (int, int) {
@@ -1235,8 +1253,8 @@ func c19PostprocessorBody(c *Ctx) {
 					}
 					return 0, 0
 				}}.Count()
-			c.Check(fromNew && procs != nil && !iv.NoPath && iv.Min >= 1, "O19.8", fk(fn)+":process-gets-the-read-body", in.Pos(),
-				fmt.Sprintf("the reader argument comes from bytes.NewReader: %v; bytes.NewReader calls on the paths to Process when there are postprocessors and no I/O error = %v (want at least 1 on every path); witness %s", fromNew, iv, PathString(iv.MinPath)))
+			c.Check(fromNew && !iv.NoPath && iv.Min >= 1, "O19.8", fk(fn)+":process-gets-the-read-body", in.Pos(),
+				fmt.Sprintf("the reader argument comes from bytes.NewReader (in %s): %v; bytes.NewReader calls on the paths to Process when there are postprocessors and no I/O error = %v (want at least 1 on every path); witness %s", cur.Name(), fromNew, iv, PathString(iv.MinPath)))
 		})
 	}
 	c.Floor("O19.8", "Postprocessor.Process calls taking a pointer-backed reader", n, 1)
